@@ -588,6 +588,23 @@ impl Shared {
                 let i = calls2.fetch_add(1, Ordering::SeqCst);
                 let d = decisions.get(i).copied().unwrap_or(false);
                 log2.lock().unwrap().push(format!("(sampler {} {} {})", tid(c.trace_id()), sid(c.span_id()), d));
+                // "for all sampler functions": a sampler may itself look at, and enter, trace context while it decides
+                // (to keep its own work untraced, to read the incoming state) — none of which changes what it is asked
+                // or what comes out; which of the three it does rotates with the call number
+                match i % 3 {
+                    1 => {
+                        let _ = emit_traceparent::Traceparent::current();
+                        let _ = emit_traceparent::Tracestate::current();
+                    }
+                    2 => {
+                        let inner = emit_traceparent::Traceparent::new(None, None, emit_traceparent::TraceFlags::EMPTY)
+                            .push()
+                            .call(|| emit_traceparent::Traceparent::current());
+                        let _ = inner;
+                        let _ = emit_traceparent::Tracestate::current();
+                    }
+                    _ => {}
+                }
                 d
             }),
         }
